@@ -536,9 +536,15 @@ func objectEntry(r *Scanner) (stateFn, error) {
 	// the resolved object.
 	mw = &boundedWriter{w: mw, limit: oh.Size}
 
-	_, err = ioutil.CopyBufferPool(mw, zr)
+	n, err := ioutil.CopyBufferPool(mw, zr)
 	if err != nil {
 		return nil, err
+	}
+	// The bounded writer rejects an overrun; a stream that ends before
+	// the declared size is just as malformed (git: "inflate returned").
+	if n != oh.Size {
+		return nil, fmt.Errorf("%w: object at offset %d inflates to %d bytes, header declares %d",
+			ErrMalformedPackfile, oh.Offset, n, oh.Size)
 	}
 
 	if err := r.Flush(); err != nil {
